@@ -11,6 +11,7 @@ import (
 	"math/rand"
 	"os"
 	"regexp"
+	"sort"
 	"strconv"
 	"testing"
 
@@ -145,6 +146,35 @@ func c46Ctx(md, emd []xdsmt.MDE) context.Context {
 	return grpcutil.WithExtraMetadata(ctx, e)
 }
 
+// c46PairsMD builds metadata through the public API (metadata.Pairs lower-cases the keys it is given).
+func c46PairsMD(es []xdsmt.MDE) metadata.MD {
+	var kv []string
+	for _, e := range es {
+		for _, v := range e.Vs {
+			kv = append(kv, e.K, v)
+		}
+	}
+	return metadata.Pairs(kv...)
+}
+
+// c46ActualMD logs the metadata as it really is (keys as bytes, sorted), so that the monitor sees the real keys.
+func c46ActualMD(md metadata.MD) []any {
+	keys := make([]string, 0, len(md))
+	for k := range md {
+		keys = append(keys, k)
+	}
+	sort.Strings(keys)
+	out := []any{}
+	for _, k := range keys {
+		vs := []any{}
+		for _, v := range md[k] {
+			vs = append(vs, vlib.Bytes(v))
+		}
+		out = append(out, map[string]any{"k": vlib.Bytes(k), "vs": vs})
+	}
+	return out
+}
+
 func TestVerifC46Select(t *testing.T) {
 	tr, err := vlib.NewTrace(os.Getenv("VERIF_OUT"))
 	if err != nil {
@@ -224,7 +254,9 @@ func TestVerifC46Select(t *testing.T) {
 
 	// ---- request hash: one catch-all route carrying the hash policies ----
 	pols := []c46Pol{{Type: "hdr", Name: "h"}, {Type: "hdr", Name: "g"}, {Type: "hdr", Name: "h", Term: true}, {Type: "hdr", Name: "h", Sub: 1},
-		{Type: "chan"}, {Type: "chan", Term: true}, {Type: "hdr", Name: "g", Term: true}}
+		{Type: "chan"}, {Type: "chan", Term: true}, {Type: "hdr", Name: "g", Term: true},
+		// header_name is taken verbatim from the RouteAction proto: any letter case
+		{Type: "hdr", Name: "H"}, {Type: "hdr", Name: "G", Term: true}}
 	var lists [][]c46Pol
 	for _, a := range pols {
 		lists = append(lists, []c46Pol{a})
@@ -232,7 +264,8 @@ func TestVerifC46Select(t *testing.T) {
 			lists = append(lists, []c46Pol{a, b})
 		}
 	}
-	lists = append(lists, []c46Pol{pols[1], pols[2], pols[4]}, []c46Pol{pols[0], pols[1], pols[0]}, []c46Pol{pols[3], pols[6], pols[0]})
+	lists = append(lists, []c46Pol{pols[1], pols[2], pols[4]}, []c46Pol{pols[0], pols[1], pols[0]}, []c46Pol{pols[3], pols[6], pols[0]},
+		[]c46Pol{{Type: "hdr", Name: "X-Session-ID"}}, []c46Pol{{Type: "hdr", Name: "x-session-id"}}, []c46Pol{{Type: "hdr", Name: "X-Session-ID", Sub: 1}, pols[1]})
 	hvals := [][]string{nil, {"a"}, {"b"}, {"a", "b"}, {"a,b"}}
 	gvals := [][]string{nil, {"x"}}
 	evals := [][]string{nil, {"a"}, {"e"}}
@@ -245,37 +278,43 @@ func TestVerifC46Select(t *testing.T) {
 			for hi, hv := range hvals {
 				for gi, gv := range gvals {
 					for ei, ev := range evals {
-						if !thorough && (li+hi+gi+ei+round)%3 != 0 {
+						if !thorough && (li+hi+gi+ei+round)%5 != 0 {
 							continue
 						}
 						var md, emd []xdsmt.MDE
+						hk, gk := "h", "g"
+						if (hi+gi+ei)%2 == 1 {
+							hk, gk = "H", "G" // the application may spell the key in any case: the API lower-cases it
+						}
 						if hv != nil {
-							md = append(md, xdsmt.MDE{K: "h", Vs: hv})
+							md = append(md, xdsmt.MDE{K: hk, Vs: hv}, xdsmt.MDE{K: "X-Session-Id", Vs: hv})
 						}
 						if gv != nil {
-							md = append(md, xdsmt.MDE{K: "g", Vs: gv})
+							md = append(md, xdsmt.MDE{K: gk, Vs: gv})
 						}
 						if ev != nil {
 							emd = append(emd, xdsmt.MDE{K: "h", Vs: ev})
 						}
-						xdsmt.Safe(tr, "hash", func() {
-							res, err := cs.SelectConfig(iresolver.RPCInfo{Context: c46Ctx(md, emd), Method: "/s/m"})
-							if err != nil {
-								panic(err)
-							}
-							h, _ := iringhash.XDSRequestHash(res.Context)
-							if res.OnCommitted != nil {
-								res.OnCommitted()
-							}
-							var pj []any
-							for _, p := range pl {
-								pj = append(pj, map[string]any{"type": p.Type, "name": p.Name, "term": p.Term, "sub": p.Sub})
-							}
-							if md == nil {
-								md = []xdsmt.MDE{}
-							}
-							tr.Emit(map[string]any{"ev": "hash", "pols": pj, "md": xdsmt.MDJSON(md), "emd": xdsmt.MDJSON(emd), "h": strconv.FormatUint(h, 10)})
-						})
+						realMD, realEMD := c46PairsMD(md), c46PairsMD(emd)
+						realEMD["content-type"] = []string{"application/grpc"}
+						for rep := 0; rep < 2; rep++ { // identical RPCs: the hash must not change
+							xdsmt.Safe(tr, "hash", func() {
+								ctx := grpcutil.WithExtraMetadata(metadata.NewOutgoingContext(context.Background(), realMD), realEMD)
+								res, err := cs.SelectConfig(iresolver.RPCInfo{Context: ctx, Method: "/s/m"})
+								if err != nil {
+									panic(err)
+								}
+								h, _ := iringhash.XDSRequestHash(res.Context)
+								if res.OnCommitted != nil {
+									res.OnCommitted()
+								}
+								var pj []any
+								for _, p := range pl {
+									pj = append(pj, map[string]any{"type": p.Type, "name": vlib.Bytes(p.Name), "term": p.Term, "sub": p.Sub})
+								}
+								tr.Emit(map[string]any{"ev": "hash", "pols": pj, "md": c46ActualMD(realMD), "emd": c46ActualMD(realEMD), "h": strconv.FormatUint(h, 10)})
+							})
+						}
 					}
 				}
 			}
